@@ -25,8 +25,15 @@ for f in $demos; do mv /tmp/seed_aside_$id/$f $f; done
 echo "demo_with_exit=$with demo_without_exit=$without suite_exit=$suite"
 # run the checks against /repo with the patch applied
 cd /verif
+rebased=""
+for f in $(ls -t $out/patch_rebased_on_*.diff 2>/dev/null); do
+  if git -C /repo apply --check $f 2>/dev/null; then rebased=$f; break; fi
+done
 if git -C /repo apply --check $out/patch.diff 2>/dev/null; then
   git -C /repo apply $out/patch.diff
+elif [ -n "$rebased" ]; then
+  echo "using hand-rebased variant $(basename $rebased)"
+  git -C /repo apply $rebased
 elif git -C /repo apply --3way $out/patch.diff >/dev/null 2>&1 && ! git -C /repo diff --name-only --diff-filter=U | grep -q .; then
   # the agent's worktree is older than /repo: merged three-way, kept as a rebased variant
   h=$(git -C /repo log --format=%h -1)
